@@ -17,6 +17,15 @@ separate, structural rule:
 R-FLOATFLOOR  no slice bound is formed by a float floor-type division (`//`, floor_divide, divmod, `%`) of exactly
               that quotient: Python/numpy compute those from the exact remainder of the stored operands, so a limit
               k*s with a non-representable bin width s yields k-1 (1.0 // 0.1 == 9.0) where true division gives k.
+
+What is done with the indices afterwards — integer arithmetic, tests, one selection or a sum of several pieces — is
+decided by exact evaluation:
+
+R-WINDOWEXACT for limits on bin edges l <= r of an axis with n bins the returned formal sum holds exactly the cells of
+              [l, r), each once (sa/rules/binwindow.py: abstract interpretation of integrate for all windows of all
+              bin counts in {1,2,3}^2).  r = n must select up to the end (an index reduced `% n` becomes 0), l = r
+              nothing, pieces must tile the window.  When the selection is made of several pieces R-AXISMETA and
+              R-AXISFAMILY are stated on the limit-to-index conversions the piece bounds depend on (`_piecewise`).
 """
 from __future__ import annotations
 
@@ -82,9 +91,15 @@ def _axis_exprs(base_axes):
     return out
 
 
-def _slice_bounds(df: DataFlow, at: int, expr: ast.expr, f):
+def _is_none(e) -> bool:
+    return isinstance(e, ast.Constant) and e.value is None
+
+
+def _slice_bounds(df: DataFlow, at: int, expr: ast.expr, f, allow_open: bool = False):
     """All definitions of a slice expression used at node `at`: list of (lo, hi, def node idx) with
-    lo/hi None for slice(None)."""
+    lo/hi None for slice(None).  With `allow_open` (selections assembled from pieces) a bound left open (`slice(a, None)`,
+    `[:b]`) is returned as None next to the computed one, and a definition `= None` of the slice variable (the marker
+    'no such piece') is skipped."""
     if isinstance(expr, ast.Name):
         out = []
         defs = df.reaching(at, expr.id)
@@ -93,13 +108,19 @@ def _slice_bounds(df: DataFlow, at: int, expr: ast.expr, f):
         for d in defs:
             if d.kind != "assign" or d.value is None:
                 raise AnalysisError(f"{f.qualname}: slice variable {expr.id} defined by {d.kind}")
-            out += _slice_bounds(df, d.node, d.value, f)
+            if allow_open and _is_none(d.value):
+                continue
+            out += _slice_bounds(df, d.node, d.value, f, allow_open)
         return out
     if isinstance(expr, ast.Call) and call_name(expr) == "slice":
         a = expr.args
-        if len(a) == 1 and isinstance(a[0], ast.Constant) and a[0].value is None:
+        if len(a) == 1 and _is_none(a[0]):
             return [(None, None, at)]
+        if allow_open and len(a) == 1 and not expr.keywords:
+            return [(None, a[0], at)]
         if len(a) == 2:
+            if allow_open:
+                return [(None if _is_none(a[0]) else a[0], None if _is_none(a[1]) else a[1], at)]
             return [(a[0], a[1], at)]
         raise AnalysisError(f"{f.qualname}: unsupported slice form {norm_text(expr)}")
     if isinstance(expr, ast.Slice):
@@ -108,6 +129,8 @@ def _slice_bounds(df: DataFlow, at: int, expr: ast.expr, f):
         if expr.lower is None and expr.upper is None:
             return [(None, None, at)]
         if expr.lower is None or expr.upper is None:
+            if allow_open:
+                return [(expr.lower, expr.upper, at)]
             raise AnalysisError(f"{f.qualname}: half-open slice literal")
         return [(expr.lower, expr.upper, at)]
     if isinstance(expr, ast.Call) and f.cls is not None and (call_name(expr) or "").startswith("self."):
@@ -245,6 +268,183 @@ def _rounded_float_quotient(e: ast.expr) -> bool:
     return False
 
 
+def _sum_chain_reduces_both(stmt: ast.stmt, sub: ast.expr) -> bool:
+    """`<sub>.sum(axis=a).sum(axis=b)...`: do the successive sums over trailing axes remove both base axes?"""
+    parent = {}
+    for p in ast.walk(stmt):
+        for c in ast.iter_child_nodes(p):
+            parent[id(c)] = p
+    cur, left = sub, 2
+    while left > 0:
+        attr = parent.get(id(cur))
+        call = parent.get(id(attr)) if attr is not None else None
+        if not (isinstance(attr, ast.Attribute) and attr.attr == "sum" and attr.value is cur
+                and isinstance(call, ast.Call) and call.func is attr):
+            return False
+        ax = kw(call, "axis") or (call.args[0] if call.args else None)
+        try:
+            axes = ast.literal_eval(ax) if ax is not None else None
+        except Exception:  # noqa: BLE001
+            return False
+        axes = (axes,) if isinstance(axes, int) else axes
+        if not isinstance(axes, tuple) or not all(isinstance(a, int) and -left <= a < 0 for a in axes) \
+                or len(set(axes)) != len(axes):
+            return False
+        left -= len(axes)
+        cur = call
+    return left == 0
+
+
+def _stmt_node(integ, df: DataFlow, sub) -> int:
+    """CFG node of the simple statement that holds the expression `sub`."""
+    stmt = None
+    for st in walk_no_nested(integ.node):
+        if isinstance(st, ast.stmt) and not isinstance(st, (ast.If, ast.For, ast.While, ast.With, ast.Try, ast.FunctionDef)) \
+                and any(x is sub for x in ast.walk(st)):
+            stmt = st
+    if stmt is None:
+        raise AnalysisError(f"{integ.qualname}: selection statement not found")
+    return df.cfg.node_of(stmt).idx
+
+
+def _dep_roots(df: DataFlow, at: int, expr: ast.expr, seen: set):
+    """(expression, CFG node it is evaluated at) for `expr` and for every definition its value depends on."""
+    yield expr, at
+    names = set()
+    for n in ast.walk(expr):
+        if isinstance(n, ast.Name) and isinstance(n.ctx, ast.Load):
+            names.add(n.id)
+    for name in sorted(names):
+        for d in df.reaching(at, name):
+            if (d.node, name) in seen or d.value is None or d.kind not in ("assign", "walrus", "aug"):
+                continue
+            seen.add((d.node, name))
+            yield from _dep_roots(df, d.node, d.value, seen)
+
+
+def _conversion_arg(n: ast.AST):
+    """If `n` turns a real quotient into an integer (int, floor, round, //, floor_divide, divmod()[0]): the expressions
+    it converts; else None."""
+    if isinstance(n, ast.Call) and not n.keywords and len(n.args) == 1 and (_last_name(n) == "int" or _last_name(n) in _ROUNDERS):
+        return [n.args[0]]
+    if isinstance(n, ast.BinOp) and isinstance(n.op, ast.FloorDiv):
+        return [n.left, n.right]
+    if isinstance(n, ast.Call) and len(n.args) == 2 and _last_name(n) in (_QUOT_CALLS | {"divmod"}):
+        return list(n.args)
+    return None
+
+
+def _limit_conversions(df: DataFlow, at: int, expr: ast.expr, integ):
+    """The innermost limit-to-index conversions a slice bound depends on: list of (conversion expression, node).  A
+    conversion is a rounding step whose value depends on a parameter of integrate; it is innermost when nothing it
+    converts has itself been converted (int(int(q) % n) -> the inner int(q))."""
+
+    def dependent(e, nd) -> bool:
+        return bool(df.backward_slice(nd, e).params - {"self"})
+
+    def sites(e, nd, seen):
+        for root, rn in _dep_roots(df, nd, e, seen):
+            for n in ast.walk(root):
+                args = _conversion_arg(n)
+                if args is not None and dependent(n, rn):
+                    yield n, rn, args
+
+    out, ids = [], set()
+    for n, nd, args in sites(expr, at, set()):
+        if any(True for a in args for _ in sites(a, nd, set())):
+            continue  # derived from an earlier conversion
+        if id(n) not in ids:
+            ids.add(id(n))
+            out.append((n, nd))
+    return out
+
+
+def _piecewise(ctx, integ, base_axes, axes, subs, df: DataFlow) -> None:
+    """R-AXISMETA / R-AXISFAMILY for a window assembled from several selections `self.array[..., r_i, a_i]`.  The
+    rules are stated on the *limit-to-index conversions*: every rounded quotient a piece bound depends on is
+    (limit[k] - offset_j)/sampling_j for k = 0 or 1, both occur, and the radial and azimuthal conversions are the same
+    formula.  The integer arithmetic done with the indices afterwards (reduction modulo the number of bins, wrap test,
+    which piece ends where) is decided by R-WINDOWEXACT, as are the unlimited slices and the reduction."""
+    q = integ.qualname
+    params = set(integ.params)
+    for sub in subs:
+        ctx.require(len(sub.slice.elts) == 3, f"{q}: a selection does not index exactly the two base axes")
+    nz_meta = FlowNormalizer(DataFlow(base_axes.node), 0)
+    conv_terms: dict[str, dict[int, Poly]] = {}
+    limit_param: dict[str, str] = {}
+    for j, fam in enumerate(FAMILIES):
+        convs, seen_ids = [], set()
+        for sub in subs:
+            at = _stmt_node(integ, df, sub)
+            for lo, hi, node in _slice_bounds(df, at, sub.slice.elts[1 + j], integ, allow_open=True):
+                for e in (lo, hi):
+                    if e is None:
+                        continue
+                    for c, nd in _limit_conversions(df, node, e, integ):
+                        if id(c) not in seen_ids:
+                            seen_ids.add(id(c))
+                            convs.append((c, nd))
+        ctx.require(bool(convs), f"{q}: no limit-to-index conversion reaches the pieces of base axis {j - 2}")
+        off, samp = axes[j]
+        offp, sampp = nz_meta.norm(off), nz_meta.norm(samp)
+        found: dict[int, Poly] = {}
+        why = []
+        pnames = set()
+        for c, nd in convs:
+            nz = _IndexNorm(df, nd)
+            t = nz.norm(c)
+            nearest = "round:nearest" in nz.flags
+            used = set()
+            for a in t.atoms():
+                m = re.fullmatch(r"(?:1\*)?(\w+)\[(\d+)\]", a)
+                if m and m.group(1) in params:
+                    used.add((m.group(1), int(m.group(2))))
+            match = None
+            for p, k in sorted(used):
+                guard = (t - (_limit_atom(p, k) - offp) * sampp.inverse()).const_value()
+                if guard is not None and 0 <= guard < 1 and (guard == 0 or not nearest):
+                    match = (p, k)
+            if match is None or match[1] not in (0, 1):
+                why.append(f"the conversion `{norm_text(c)[:70]}` is {t.key()[:90]}, not (limit[k] - {norm_text(off)}) / "
+                           f"{norm_text(samp)} of the published axis {j - 2}")
+                continue
+            pnames.add(match[0])
+            found.setdefault(match[1], t)
+        if not why:
+            if len(pnames) != 1:
+                why.append(f"the pieces read the limits {sorted(pnames)} instead of one limits pair")
+            for k in (0, 1):
+                if k not in found:
+                    why.append(f"no piece bound is computed from limit [{k}]")
+        # In this shape the symbolic rule only *reads*: a window built from another, equally correct set of conversions
+        # (left index plus the number of bins in the window, ...) is not a violation.  What the pieces select is decided
+        # by the exact evaluation, which ran before and reports a wrong formula with a concrete window.
+        ctx.require(not why, f"{q}: pieces of base axis {j - 2}: " + "; ".join(why))
+        ctx.ok("R-AXISMETA", f"{q}:{fam}-axis index", integ.loc(convs[0][0]),
+               f"every limit-to-index conversion of the {len(subs)} pieces is (limits[k] - {norm_text(off)}) / "
+               f"{norm_text(samp)}, k = 0 and 1")
+        conv_terms[fam] = found
+        limit_param[fam] = sorted(pnames)[0]
+    if len(conv_terms) == 2:
+        ctx.check(limit_param["radial"] != limit_param["azimuthal"], "R-AXISMETA", f"{q}:limit-parameters",
+                  integ.where, f"axes are limited by distinct parameters {limit_param}",
+                  f"both base axes are limited by the same parameter {limit_param['radial']}", key_detail="params")
+        bad, differing = [], set()
+        for k, which in ((0, "lower"), (1, "upper")):
+            r, a = (_strip_guard(conv_terms[fam][k]) for fam in FAMILIES)
+            if _rename(r) != a:
+                bad.append(f"{which}: radial {r.key()}  vs azimuthal {a.key()}")
+                differing |= {x for x in (_rename(r) - a).atoms() if not re.search(r"\[\d+\]$", x)}
+        ctx.check(not bad, "R-AXISFAMILY", f"{q}:radial~azimuthal", integ.loc(subs[0]),
+                  "radial and azimuthal limit-to-index conversions are alpha-equivalent under radial<->azimuthal: "
+                  + conv_terms["radial"][0].key(),
+                  "the azimuthal index is not the radial formula with radial->azimuthal: " + " | ".join(bad),
+                  key_detail="alpha[" + ",".join(sorted(differing)) + "]")
+    ctx.info("R-AXISMETA", f"{q}:pieces", integ.loc(subs[0]),
+             f"the window is assembled from {len(subs)} selections; unlimited slices, the tiling of [l, r) by the pieces "
+             "and the reduction are decided by exact evaluation (R-WINDOWEXACT)")
+
+
 def run(ctx) -> None:
     repo = ctx.repo
     ctx.rule("R-AXISFAMILY", "in PolarMeasurements.integrate the index terms of the radial slice and of the "
@@ -271,8 +471,11 @@ def run(ctx) -> None:
                 and len(n.slice.elts) >= 2 and isinstance(n.slice.elts[0], ast.Constant) \
                 and n.slice.elts[0].value is Ellipsis:
             subs.append(n)
-    ctx.require(len(subs) == 1, f"{integ.qualname}: expected exactly one `self.array[..., r, a]` selection, "
-                                f"found {len(subs)}")
+    ctx.require(len(subs) >= 1, f"{integ.qualname}: no `self.array[..., r, a]` selection found")
+    if len(subs) > 1:
+        # the window is assembled from several pieces (e.g. a periodic axis summed in two parts)
+        _piecewise(ctx, integ, base_axes, axes, subs, df)
+        return
     sub = subs[0]
     ctx.require(len(sub.slice.elts) == 3, f"{integ.qualname}: selection does not index exactly the two base axes")
     stmt = None
@@ -394,7 +597,8 @@ def run(ctx) -> None:
     if red is not None:
         ax = kw(red, "axis") or (red.args[0] if red.args else None)
         txt = norm_text(ax) if ax is not None else "None"
-        ctx.check(txt in ("(-2, -1)", "(-1, -2)"), "R-AXISMETA", f"{integ.qualname}:reduction", integ.loc(red),
+        ctx.check(txt in ("(-2, -1)", "(-1, -2)") or _sum_chain_reduces_both(stmt, sub), "R-AXISMETA",
+                  f"{integ.qualname}:reduction", integ.loc(red),
                   "selection summed over both base axes", f"the selection is summed over axis={txt}, not over both "
                   "base axes", key_detail="reduction")
     else:
@@ -630,7 +834,9 @@ def _numkind(e: ast.expr, df: DataFlow, node: int, f, depth: int = 0):
         return None
     if isinstance(e, ast.Subscript):
         idx_const = isinstance(e.slice, ast.Constant) and isinstance(e.slice.value, int)
-        if isinstance(e.value, ast.Attribute) and e.value.attr == "shape" and idx_const:
+        neg_const = isinstance(e.slice, ast.UnaryOp) and isinstance(e.slice.op, ast.USub) and isinstance(
+            e.slice.operand, ast.Constant) and isinstance(e.slice.operand.value, int)
+        if isinstance(e.value, ast.Attribute) and e.value.attr == "shape" and (idx_const or neg_const):
             return "int"
         if isinstance(e.value, (ast.Tuple, ast.List)) and idx_const and -len(e.value.elts) <= e.slice.value < len(e.value.elts):
             return _numkind(e.value.elts[e.slice.value], df, node, f, depth + 1)
@@ -739,6 +945,16 @@ def _floor_ops(df: DataFlow, at: int, expr: ast.expr, seen: set, pos=None):
             yield from _floor_ops(df, d.node, d.value, seen, pos=p)
 
 
+def _selections(integ, df: DataFlow):
+    """[(subscript `self.array[..., r, a]`, CFG node of its statement)]: the selection, or the pieces it is made of."""
+    subs = [n for n in walk_no_nested(integ.node)
+            if isinstance(n, ast.Subscript) and dotted(n.value) == "self.array" and isinstance(n.slice, ast.Tuple)
+            and len(n.slice.elts) == 3 and isinstance(n.slice.elts[0], ast.Constant) and n.slice.elts[0].value is Ellipsis]
+    if not subs:
+        raise AnalysisError(f"{integ.qualname}: no `self.array[..., r, a]` selection found")
+    return [(sub, _stmt_node(integ, df, sub)) for sub in subs]
+
+
 def _selection(integ, df: DataFlow):
     """(subscript `self.array[..., r, a]`, CFG node of its statement), as the base rule locates it."""
     subs = [n for n in walk_no_nested(integ.node)
@@ -764,7 +980,7 @@ def floatfloor(ctx, rule: str = "R-FLOATFLOOR") -> int:
     axes = _axis_exprs(repo.method(MOD, CLS, "base_axes_metadata"))
     nz_meta = FlowNormalizer(DataFlow(repo.method(MOD, CLS, "base_axes_metadata").node), 0)
     df = DataFlow(integ.node)
-    sub, at = _selection(integ, df)
+    pieces = _selections(integ, df)
     limit_params = [p for p in integ.params if p != "self"]
     pending = None
     examined = 0
@@ -772,11 +988,19 @@ def floatfloor(ctx, rule: str = "R-FLOATFLOOR") -> int:
         offp, sampp = nz_meta.norm(axes[j][0]), nz_meta.norm(axes[j][1])
         expected = [(_limit_atom(p, k) - offp) * sampp.inverse() for p in limit_params for k in (0, 1)]
         n_arm = 0
-        for lo, hi, node in _slice_bounds(df, at, sub.slice.elts[1 + j], integ):
-            if lo is None:
+        bounds, seen_b = [], set()
+        for sub, at in pieces:
+            for b in _slice_bounds(df, at, sub.slice.elts[1 + j], integ, allow_open=len(pieces) > 1):
+                if (id(b[0]), id(b[1]), b[2]) not in seen_b or (b[0] is None and b[1] is None):
+                    seen_b.add((id(b[0]), id(b[1]), b[2]))
+                    bounds.append(b)
+        for lo, hi, node in bounds:
+            if lo is None and hi is None:
                 continue
             n_arm += 1
             for which, e in (("lower", lo), ("upper", hi)):
+                if e is None:
+                    continue  # a piece that runs to the end / from the start of the axis
                 examined += 1
                 construct = f"{integ.qualname}:{fam}-axis {which} index"
                 ops = list(_floor_ops(df, node, e, set()))
@@ -843,3 +1067,218 @@ def run(ctx) -> None:  # noqa: F811
 
     ctx.rule("R-FLOATFLOOR", FLOATFLOOR_TEXT)
     deferred.run(ctx, lambda: floatfloor(ctx), _inner_run_c13d)
+
+
+# ---- added after the seeded change C13-r6seed3: a window assembled from several pieces (periodic azimuthal limits)
+_inner_run_c13e = run
+
+WINDOWEXACT_TEXT = (
+    "for limits on bin edges with indices 0 <= l <= r <= n on an axis with n bins, PolarMeasurements.integrate returns "
+    "the formal sum of exactly the cells with index in [l, r) on that axis (and all cells of an axis without limits), "
+    "each once: r = n, the outer edge of the last bin, selects up to the end, l = r selects nothing, no limits select "
+    "everything.  Decided by exact evaluation (sa/rules/binwindow.py): the method is interpreted over abstract arrays "
+    "whose elements are formal sums of cells, for every pair of bin counts in {1,2,3}^2 and every window (l, r) of both "
+    "axes, with the limits put on the bin edges the class publishes (offset_j + k*sampling_j, generic rational "
+    "offsets and samplings) and exact integer/rational index arithmetic.  This reads selections made of several "
+    "pieces (a sum of sliced sums, possibly under a test): the pieces must tile [l, r) — a piece counted twice gives "
+    "weight 2, a gap weight 0, and an index reduced with `% n` turns the upper index n into 0, so the explicit full "
+    "range selects nothing.  Necessary for the property: the property quantifies over exactly these limits")
+
+
+def _window_kind(l, r, n) -> str:
+    if l == r:
+        return "empty"
+    if l == 0 and r == n:
+        return "full"
+    if r == n:
+        return "upper-on-last-edge"
+    if l == 0:
+        return "lower-on-first-edge"
+    return "interior"
+
+
+_KIND_ORDER = ("no-limits", "full", "upper-on-last-edge", "lower-on-first-edge", "interior", "empty")
+
+
+def windowexact(ctx, rule: str = "R-WINDOWEXACT") -> int:
+    """R-WINDOWEXACT on PolarMeasurements.integrate (also run by C12); returns the number of windows evaluated."""
+    from ..rules import binwindow as bw
+
+    repo = ctx.repo
+    integ = repo.method(MOD, CLS, "integrate")
+    base_axes = repo.method(MOD, CLS, "base_axes_metadata")
+    cls = integ.cls
+    limit_param = {}
+    for fam in FAMILIES:
+        ps = [p for p in integ.params if fam in p and integ.defaults().get(p) is not None
+              and isinstance(integ.defaults()[p], ast.Constant) and integ.defaults()[p].value is None]
+        ctx.require(len(ps) == 1, f"{integ.qualname}: expected one optional {fam} limits parameter, found {ps}")
+        limit_param[fam] = ps[0]
+
+    attr_table: dict = {}
+
+    def published(nbins):
+        it = bw.Interp(repo, cls, nbins, attr_table)
+        try:
+            val = it.call_function(base_axes, [], {}, bw.SELF)
+        except bw.Raised as e:
+            raise AnalysisError(f"{base_axes.qualname}: exact evaluation: raises {e.name}")
+        if not isinstance(val, (list, tuple)) or len(val) != 2:
+            raise AnalysisError(f"{base_axes.qualname}: does not return a two-element axis list")
+        return it
+
+    # offset / sampling of each base axis as published, evaluated in the same sample of the object's attributes
+    axes = _axis_exprs(base_axes)
+
+    def edges(nbins, j, k):
+        it = bw.Interp(repo, cls, nbins, attr_table)
+        it._fn.append(base_axes)
+        env = {base_axes.positional_params[0]: bw.SELF}
+        # locals of base_axes_metadata the published expressions may mention
+        try:
+            try:
+                it.block(base_axes.node.body, env)
+            except bw._Return:
+                pass
+            off, samp = (it.eval(x, env) for x in axes[j])
+        except bw.Raised as e:
+            raise AnalysisError(f"{base_axes.qualname}: exact evaluation: raises {e.name}")
+        off, samp = it.num(off, axes[j][0]), it.num(samp, axes[j][1])
+        if samp == 0:
+            raise AnalysisError(f"{base_axes.qualname}: sampling evaluates to 0")
+        return off + k * samp
+
+    def evaluate(nbins, windows):
+        """windows: per family None or (l, r).  Returns ('sum', weights) | ('raises', name) | ('shape', text)."""
+        it = bw.Interp(repo, cls, nbins, attr_table)
+        kwargs = {}
+        for j, fam in enumerate(FAMILIES):
+            w = windows[j]
+            kwargs[limit_param[fam]] = None if w is None else (Fraction(edges(nbins, j, w[0])),
+                                                               Fraction(edges(nbins, j, w[1])))
+        try:
+            val = it.call_function(integ, [], kwargs, bw.SELF)
+        except bw.Raised as e:
+            return ("raises", e.name)
+        arrs = bw.arrays_in(val)
+        if len(arrs) != 1:
+            raise AnalysisError(f"{integ.qualname}: exact evaluation: the returned value holds {len(arrs)} arrays derived "
+                                "from self.array, expected one")
+        wts = arrs[0].weights()
+        if wts is None:
+            return ("shape", f"an array that still has {len(arrs[0].shape)} of the two base axes")
+        return ("sum", wts)
+
+    def expected(nbins, windows):
+        rng = [range(nbins[j]) if windows[j] is None else range(windows[j][0], windows[j][1]) for j in (0, 1)]
+        return {(i, j): Fraction(1) for i in rng[0] for j in rng[1]}
+
+    def show_cells(wts, nbins, j):
+        """projection of a weight table on axis j, as text"""
+        parts = []
+        for i in range(nbins[j]):
+            ws = {wts.get((i, k) if j == 0 else (k, i), Fraction(0)) for k in range(nbins[1 - j])}
+            if ws == {Fraction(0)}:
+                continue
+            parts.append(str(i) if ws == {Fraction(1)} else f"{i} (weight {'/'.join(str(w) for w in sorted(ws))})")
+        stray = sorted({c[j] for c in wts if not 0 <= c[j] < nbins[j]})
+        parts += [f"{i} (outside)" for i in stray]
+        return "bins {" + ", ".join(parts) + "}" if parts else "no bins"
+
+    sizes = [(a, b) for a in (1, 2, 3) for b in (1, 2, 3)]
+    n_eval = 0
+    failures = {fam: [] for fam in FAMILIES}
+    failures["none"] = []
+    failures["both"] = []
+    totals: dict = {}
+
+    def pairs(n):
+        return [(l, r) for l in range(n + 1) for r in range(l, n + 1)]
+
+    def run_case(nbins, windows, bucket, kind):
+        nonlocal n_eval
+        n_eval += 1
+        got = evaluate(nbins, windows)
+        if got[0] == "sum" and got[1] == expected(nbins, windows):
+            return
+        if bucket == "none":
+            totals[nbins] = got
+        elif bucket in FAMILIES and got[0] == "sum" and totals.get(nbins, ("",))[0] == "sum":
+            # the sum without limits is already wrong for these bin counts: a window that is exactly that sum masked
+            # to [l, r) restricts its own axis correctly — the deviation is the one reported for the total
+            j = FAMILIES.index(bucket)
+            l, r = windows[j]
+            if got[1] == {c: w for c, w in totals[nbins][1].items() if l <= c[j] < r}:
+                return
+        failures[bucket].append((kind, nbins, windows, got))
+
+    for nbins in sizes:
+        run_case(nbins, (None, None), "none", "no-limits")
+        for j, fam in enumerate(FAMILIES):
+            for (l, r) in pairs(nbins[j]):
+                w = [None, None]
+                w[j] = (l, r)
+                run_case(nbins, tuple(w), fam, _window_kind(l, r, nbins[j]))
+    single_clean = not any(failures[k] for k in ("none",) + FAMILIES)
+    if single_clean:
+        for nbins in sizes:
+            for wr in pairs(nbins[0]):
+                for wa in pairs(nbins[1]):
+                    kinds = {_window_kind(*wr, nbins[0]), _window_kind(*wa, nbins[1])}
+                    run_case(nbins, (wr, wa), "both", sorted(kinds, key=_KIND_ORDER.index)[0])
+
+    def describe(case, j):
+        kind, nbins, windows, got = case
+        n = nbins[j] if j is not None else None
+        lim = ", ".join(f"{fam} limits on the edges (l, r) = {windows[jj]} of {nbins[jj]} bins"
+                        for jj, fam in enumerate(FAMILIES) if windows[jj] is not None) or "no limits"
+        if got[0] == "raises":
+            return f"{lim}: raises {got[1]} instead of returning the sum"
+        if got[0] == "shape":
+            return f"{lim}: returns {got[1]}"
+        exp = expected(nbins, windows)
+        if j is None:
+            return (f"{lim} ({nbins[0]} x {nbins[1]} bins): sums radial {show_cells(got[1], nbins, 0)} x azimuthal "
+                    f"{show_cells(got[1], nbins, 1)} instead of radial {show_cells(exp, nbins, 0)} x azimuthal "
+                    f"{show_cells(exp, nbins, 1)}, each cell once")
+        return (f"{lim}: sums {show_cells(got[1], nbins, j)} of the {n} bins along the {FAMILIES[j]} axis instead of "
+                f"{show_cells(exp, nbins, j)}")
+
+    def smallest(cases):
+        # the most readable witness: the largest sample size, then the smallest window
+        return min(cases, key=lambda c: (-sum(c[1]), c[1], [w or () for w in c[2]]))
+
+    q = integ.qualname
+    bad = failures["none"]
+    ctx.check(not bad, rule, f"{q}:no-limits total", integ.where,
+              f"without limits every cell is summed once ({len(sizes)} pairs of bin counts)",
+              describe(smallest(bad), None) if bad else "", key_detail="total")
+    for j, fam in enumerate(FAMILIES):
+        bad = failures[fam]
+        kinds = sorted({c[0] for c in bad}, key=_KIND_ORDER.index)
+        detail = ""
+        if bad:
+            first = smallest([c for c in bad if c[0] == kinds[0]])
+            detail = (f"the {fam} axis is not summed exactly for windows of the kind {', '.join(kinds)}; e.g. "
+                      + describe(first, j)
+                      + ("; an upper limit on the outer edge of the last bin has the index n, the number of bins: it "
+                         "must select up to the end of the axis" if {"full", "upper-on-last-edge"} & set(kinds) else ""))
+        ctx.check(not bad, rule, f"{q}:{fam}-axis window", integ.where,
+                  f"every window [l, r) with 0 <= l <= r <= n on bin edges sums exactly the bins l..r-1 (n = 1, 2, 3; "
+                  f"full range, last edge, first edge, interior and empty windows)", detail,
+                  key_detail="window[" + ",".join(kinds) + "]")
+    if single_clean:
+        bad = failures["both"]
+        kinds = sorted({c[0] for c in bad}, key=_KIND_ORDER.index)
+        ctx.check(not bad, rule, f"{q}:both-axes window", integ.where,
+                  "radial and azimuthal windows given together select the product of the two index ranges",
+                  ("with both limits given the sum is not over the product of the two windows; e.g. "
+                   + describe(smallest(bad), None)) if bad else "", key_detail="joint[" + ",".join(kinds) + "]")
+    return n_eval
+
+
+def run(ctx) -> None:  # noqa: F811
+    from ..rules import deferred
+
+    ctx.rule("R-WINDOWEXACT", WINDOWEXACT_TEXT)
+    deferred.run(ctx, lambda: windowexact(ctx), _inner_run_c13e)
